@@ -95,6 +95,7 @@ type built struct {
 	stride    int
 	points    int
 	nondet    string
+	unstable  string
 }
 
 type scenario struct {
@@ -221,8 +222,13 @@ func (s *scenario) get() *built {
 		// determinism: the default schedule executed twice on fresh objects must give identical observations
 		r1, _, _ := runThreads(b, func(n int, re bool) int { return 0 })
 		r2, e2, _ := runThreads(b, func(n int, re bool) int { return 0 })
-		if fmt.Sprint(r1) != fmt.Sprint(r2) || e2.Points != b.points {
+		if fmt.Sprint(r1) != fmt.Sprint(r2) {
 			b.nondet = fmt.Sprintf("two executions of the default schedule differ: %v vs %v (points %d vs %d)", r1, r2, b.points, e2.Points)
+		} else if e2.Points != b.points {
+			// same results, another number of scheduling points: nondeterminism the scheduler does not own (map iteration
+			// order, a lazily built process-wide table, ...). Not a property violation; the enumeration of this scenario
+			// is then not claimed exhaustive.
+			b.unstable = fmt.Sprintf("the default schedule passed %d scheduling points, then %d", b.points, e2.Points)
 		}
 		if os.Getenv("VERIF_C18_DEBUG") != "" {
 			fmt.Fprintf(os.Stderr, "[C18] %s: points=%d rawHeavy=%d stride=%d\n", s.name, e.Points, e.RawH, b.stride)
@@ -231,6 +237,8 @@ func (s *scenario) get() *built {
 	})
 	return s.b
 }
+
+var unstableNote sync.Once
 
 func trunc(s string) string {
 	if len(s) > 120 {
@@ -243,6 +251,13 @@ func (s *scenario) body(x *h.X) {
 	b := s.get()
 	if b.nondet != "" {
 		x.Fail("nondeterministic-default-schedule", "%s: %s (state outside the shared object survives between executions)", s.name, b.nondet)
+	}
+	if b.unstable != "" {
+		x.NotExhaustive()
+		x.Outcome("scheduling-points-not-reproducible")
+		unstableNote.Do(func() {
+			h.Assume("scenario " + s.name + ": " + b.unstable + " with identical results (nondeterminism outside the scheduler): explored schedules are real executions, exhaustiveness of that scenario is not claimed")
+		})
 	}
 	var decisions int
 	res, e, sh := runThreads(b, func(n int, runningEnabled bool) int {
